@@ -420,8 +420,10 @@ class vector3(object):
 
     def __nonzero__(self):
         # implement truth value testing and bool()
-        # not used in Python 3 tests
         return self._mag2() != 0
+
+    # Python 3 uses __bool__ (without it __len__ makes every vector true)
+    __bool__ = __nonzero__
 
     ## Regular Binary Operations
 
